@@ -221,7 +221,10 @@ fn gen_script(rng: &mut StdRng, always_restart: bool, fbmode: bool) -> J {
                     let via = ["stmt", "stmt", "func", "fb"][rng.gen_range(0..4)];
                     copies.push(json!({"from": iv, "to": ov, "via": via}));
                 }
-                fbs.push(json!({"name": format!("P{j}.f{k}"), "prog": format!("P{j}"), "inst": format!("f{k}"), "task": task, "copies": copies}));
+                // every fourth instance is a member of another (never executed) FB instance of the
+                // program: the association names it by a two-part path, `g1.f WITH T0`
+                let inst = if rng.gen_bool(0.25) { format!("g{k}.f") } else { format!("f{k}") };
+                fbs.push(json!({"name": format!("P{j}.{inst}"), "prog": format!("P{j}"), "inst": inst, "task": task, "copies": copies}));
             }
         }
         if fbs.is_empty() {
@@ -448,7 +451,10 @@ pub fn render_source(cfg: &J) -> String {
         // the instances the configuration associates with tasks are declared here and never called
         // by the program body: they execute under their task only
         for (f, fb) in fbs.iter().enumerate().filter(|(_, fb)| fb["prog"] == p["name"]) {
-            decls.push_str(&format!("  {} : FT{f};\n", fb["inst"].as_str().unwrap()));
+            match fb["inst"].as_str().unwrap().split_once('.') {
+                Some((outer, _)) => decls.push_str(&format!("  {outer} : GT{f};\n")),
+                None => decls.push_str(&format!("  {} : FT{f};\n", fb["inst"].as_str().unwrap())),
+            }
         }
         body.push_str(&format!("IF inj = INT#{} THEN zz := INT#1 / zero; END_IF;\n", j * 100 + copies.len() + 1));
         src.push_str(&format!(
@@ -467,6 +473,13 @@ pub fn render_source(cfg: &J) -> String {
         src.push_str(&format!(
             "FUNCTION_BLOCK FT{f}\nVAR_EXTERNAL elog : ARRAY[0..31] OF INT; lgn : INT; inj : INT; zero : INT;{ext} END_VAR\nVAR\n{decls}  n : INT := INT#3;\n  zz : INT;\nEND_VAR\n{body}END_FUNCTION_BLOCK\n"
         ));
+        if let Some((_, member)) = fb["inst"].as_str().unwrap().split_once('.') {
+            // the enclosing instance is neither called nor associated with a task: if it ever
+            // executes, its log entry (900 + index) names no item of the specification
+            src.push_str(&format!(
+                "FUNCTION_BLOCK GT{f}\nVAR_EXTERNAL elog : ARRAY[0..31] OF INT; lgn : INT; END_VAR\nVAR\n  {member} : FT{f};\nEND_VAR\nelog[lgn] := INT#{}; lgn := lgn + INT#1;\nEND_FUNCTION_BLOCK\n", 900 + f
+            ));
+        }
     }
     for ty in helper_types {
         src.push_str(&format!(
@@ -638,8 +651,12 @@ fn normalise(cfg: &J) -> J {
 fn fb_member(h: &TestHarness, prog: &str, inst: &str, member: &str) -> Value {
     let st = h.runtime().storage();
     let Some(Value::Instance(pid)) = st.get_global(prog) else { return Value::Null };
-    let Some(Value::Instance(fid)) = st.get_instance_var(*pid, inst) else { return Value::Null };
-    st.get_instance_var(*fid, member).cloned().unwrap_or(Value::Null)
+    let mut id = *pid;
+    for part in inst.split('.') {
+        let Some(Value::Instance(next)) = st.get_instance_var(id, part) else { return Value::Null };
+        id = *next;
+    }
+    st.get_instance_var(id, member).cloned().unwrap_or(Value::Null)
 }
 
 /// Projection shared by Cycle / Restart / PowerCycle / SetAccess events.
@@ -818,7 +835,7 @@ fn run_script(sc: &J, si: usize, o: &mut Out) -> bool {
                 };
                 let exec: Vec<String> = match h.get_output("elog") {
                     Some(Value::Array(a)) => a.elements.iter().take(n).map(|v| match v {
-                        Value::Int(i) if *i >= 100 => cfg["fbs"][*i as usize - 100]["name"].as_str().map_or(format!("?{i}"), str::to_string),
+                        Value::Int(i) if *i >= 100 => cfg["fbs"].get((*i as usize).wrapping_sub(100)).and_then(|f| f["name"].as_str()).map_or(format!("?{i}"), str::to_string),
                         Value::Int(i) => format!("P{i}"),
                         o => format!("{o:?}"),
                     }).collect(),
@@ -858,7 +875,7 @@ pub fn probe(args: &[String]) -> i32 {
     for t in h.runtime().tasks() {
         println!("task {} programs={:?} fb_instances={:?}", t.name, t.programs, t.fb_instances);
     }
-    for st in args.iter().skip(2) {
+    for st in args.iter().skip(2).filter(|a| !a.contains("--") && !a.contains('.')) {
         if st == "c" {
             h.set_input("lgn", Value::Int(0));
             let r = h.cycle();
@@ -868,6 +885,16 @@ pub fn probe(args: &[String]) -> i32 {
                 _ => vec![],
             };
             println!("cycle: exec={exec:?} errors={:?} faulted={} frames={}", r.errors, h.runtime().faulted(), h.runtime().storage().frames().len());
+            if let Some(path) = arg(args, "--watch") {
+                // PROG.inst[.inst].member
+                let parts: Vec<&str> = path.split('.').collect();
+                let st = h.runtime().storage();
+                let mut cur = st.get_global(parts[0]).cloned();
+                for p in &parts[1..] {
+                    cur = match cur { Some(Value::Instance(id)) => st.get_instance_var(id, p).cloned(), _ => None };
+                }
+                println!("  {path} = {cur:?}");
+            }
         } else if let Some(n) = st.strip_prefix('a') {
             h.advance_time(Duration::from_millis(n.parse().unwrap()));
         } else if let Some(r) = st.strip_prefix("s:") {
